@@ -101,7 +101,12 @@ def observe (d : DS) : String :=
   let us := sortStr (s.U.map (fun p => s!"{p.1.1}.{p.1.2}:{p.2.addr}:{p.2.amt}:{p.2.frozen}"))
   let kv := String.intercalate "," (d.keys.map (fun k => k ++ ":" ++ kvStr d s k))
   let zu := sortStr (s.ZU.map (fun p => p.1 ++ "@" ++ verStr p.2))
-  s!"tip={s.pointer} total={s.total} irrev={s.irrev} win={d.env.window} bal={bal} U={String.intercalate "," us} kv={kv} ZU={String.intercalate "," zu}"
+  let sel := sortStr (s.ZU.map (·.1))
+  let lh : Int := d.l.trunkHeight
+  let fz := String.intercalate "," (d.names.map (fun a =>
+    let f := (s.U.filter (fun p => p.2.addr == a && (p.2.frozen > lh || p.2.frozen == -1))).foldl (fun acc p => acc + p.2.amt) 0
+    s!"{a}:{f}"))
+  s!"tip={s.pointer} total={s.total} irrev={s.irrev} win={d.env.window} bal={bal} U={String.intercalate "," us} kv={kv} sel={String.intercalate "," sel} fz={fz} ZU={String.intercalate "," zu}"
 
 def poolStr (s : St) : String :=
   String.intercalate "," ((s.pool.mergeSort (fun a b => a ≤ b)).map toString)
